@@ -23,6 +23,7 @@ def build(P):
         k = r.random()
         if k < 0.35 and b:
             for _ in range(r.randint(1, 3)):
+                if not b: break
                 i = r.randrange(len(b))
                 c = r.random()
                 if c < 0.4: b[i] = r.choice(b"()[]<>-=+*/&^.,:'\"\\ \n\t#09azAZ\x00\x80\xff")
@@ -32,6 +33,7 @@ def build(P):
         toks = re.findall(rb"\"[^\"\n]*\"|'[^'\n]*'|[A-Za-z_][A-Za-z0-9_]*|\d+(?:[./]\d+)*|<-|<=|>=|<>|\n|\S", prog)
         if not toks: return prog
         for _ in range(r.randint(1, 3)):
+            if not toks: break
             i = r.randrange(len(toks))
             c = r.random()
             if c < 0.3: del toks[i]
